@@ -109,7 +109,8 @@ def run(ck: Check) -> int:
             pe, ee = K.match_expansions(W, U, G, c.pats, fl, None)
         except Exception:  # noqa: BLE001
             return
-        rs, bits = K.run_real_match(G, t, cands, c.pats, fl, None, 'globfilter', 'root_dir')
+        # through the same root mechanism as the glob run (the dir_fd branch of _fs_match is separate code: seeded change C06c)
+        rs, bits = K.run_real_match(G, t, cands, c.pats, fl, None, 'globfilter', c.mode if c.mode in ('root_dir', 'cwd', 'dir_fd') else 'root_dir')
         m = drv.ask(K.match_line(t, fl, pe, ee, cands))
         k6['evaluations'] += len(cands)
         if rs != 'ok' or not m.startswith('ok '):
@@ -158,7 +159,7 @@ def run(ck: Check) -> int:
                                          c.to_json(G, t), False, True, 'wcmatch/_wcmatch.py:100-133'))
 
     def on_case(t, c, st, ev, ms, mev):
-        if st == 'ok' and c.mode == 'root_dir' and drv is not None:
+        if st == 'ok' and c.mode in ('root_dir', 'cwd', 'dir_fd') and drv is not None:
             realpath_side(t, c, [p for k, p in ev if k == 'y'])
         follows = bool(c.flags & G.FOLLOW and not c.flags & G.GLOBSTARLONG) or \
             (bool(c.flags & G.GLOBSTARLONG) and '***' in c.pats) or \
